@@ -330,6 +330,30 @@ func c14(x *mon.Ctx) {
 			}
 		}
 	}
+	// long allow-lists (there is no limit on the number of permitted MR_TD values)
+	{
+		quotes, q := mkQuotes()
+		for _, n := range []int{5, 6, 8, 12, 50, 300} {
+			for _, at := range []int{-1, 0, 4, n - 1} {
+				var l [][]byte
+				for i := 0; i < n; i++ {
+					v := make([]byte, 48)
+					r.Read(v)
+					if i == at {
+						v = append([]byte{}, q.MrTd...)
+					}
+					l = append(l, v)
+				}
+				add("any-mr-td", fmt.Sprintf("len%d/match@%d", n, at), ref.Policy{AnyMrTd: l}, quotes, nil)
+			}
+			bad := make([][]byte, n)
+			for i := range bad {
+				bad[i] = append([]byte{}, q.MrTd...)
+			}
+			bad[n-1] = bad[n-1][:47]
+			add("any-mr-td", fmt.Sprintf("len%d/last-short", n), ref.Policy{AnyMrTd: bad}, quotes, nil)
+		}
+	}
 	// a wrongly sized list entry behind an empty ("do not care") one, at every pair of positions
 	{
 		quotes, q := mkQuotes()
